@@ -1,15 +1,412 @@
 /-
-  Driver.C23.handler — subquery statements of harness/src/fam_c23.rs (draft: reference semantics only).
+  Driver.C23.handler — subquery statements of harness/src/fam_c23.rs (sqlgen case format, mode spec).
+    case["c23"] : {kind, neg, corr, place, rules, unq, narrow, path ("join" = the physical plan holds a join: the subquery was
+                   decorrelated | "rowbyrow"), layout ("mem1" | "memb" | "pq")}, case["cat"][t]["cuts"] = batch lengths.
+    model  = IQE.Engine.Subquery with ALL switches off, run over the statement along the path the engine took:
+             decorrelated IN / NOT IN / EXISTS / scalar-aggregate rewrites (`inRewrite`, `notInRewrite`, `existsRewrite`,
+             `scalarLeftJoin`) or the row-by-row evaluators (`evalInSubquery`, `evalExistsCorr`, `evalScalarB`, `evalScalarCorr`,
+             `typedFromFirst`), batch by batch; everything else of the statement through `Spec.eval`;
+    K      = implementation rows = model rows as bags;
+    O      = `Spec.acceptable plan tables impl_rows` (Driver.SQL machinery), an engine error is a failure (`strict_err`) —
+             except where the reference itself raises the cardinality error of a scalar subquery: then the engine must fail too
+             (rows = failure), and an uncorrelated >1-row scalar subquery may be reported even when the outer table is empty;
+    attr   = id of the listed finding whose deviation switch(es), among those that apply to the statement's form and path,
+             make the model reproduce the implementation's outcome exactly, while the all-off model satisfies the oracle.
+             Switch sets are tried smallest first; a case needing several is reported under the first.  C23-F11 (a correlated
+             IN that was not decorrelated fails "Column not found") has no switch: decidable signature over case + message.
 -/
 import Driver.SqlCore
 import IQE.Engine.Subquery
-open Lean IQE IQE.Spec
+open Lean IQE IQE.Spec IQE.Engine.Subquery
 
 namespace Driver.C23
 open Driver.SQL
 
+def bagEq (a b : Table) : Bool :=
+  a.length == b.length && (a.foldl (fun rest r => Spec.removeFirst r rest) b).isEmpty
+
+structure Meta where
+  kind : String
+  place : String
+  rules : String
+  corr : String
+  neg : Bool
+  unq : Bool
+  narrow : Bool
+  path : String
+  layout : String
+  cuts0 : List Nat
+  cuts1 : List Nat
+  tys1 : List String
+deriving Repr, Inhabited
+
+def cutsOf (cat : Json) (t : Nat) : List Nat :=
+  match cat.getArrVal? t with
+  | .ok tj => (match tj.getObjVal? "cuts" with
+      | .ok cj => (Driver.asNatList cj).toOption.getD []
+      | .error _ => [])
+  | .error _ => []
+
+def tysOf (cat : Json) (t : Nat) : List String :=
+  match cat.getArrVal? t with
+  | .ok tj => (match tj.getObjValAs? (Array Json) "cols" with
+      | .ok cols => cols.toList.map fun cj => (cj.getObjValAs? String "ty").toOption.getD "i64"
+      | .error _ => [])
+  | .error _ => []
+
+def metaOf (cj : Json) : Meta :=
+  let m := (cj.getObjVal? "c23").toOption.getD Json.null
+  let s (k : String) (d : String) : String := (m.getObjValAs? String k).toOption.getD d
+  let b (k : String) : Bool := (m.getObjValAs? Bool k).toOption.getD false
+  let cat := (cj.getObjVal? "cat").toOption.getD Json.null
+  { kind := s "kind" "in", place := s "place" "where", rules := s "rules" "default", corr := s "corr" "none",
+    neg := b "neg", unq := b "unq", narrow := b "narrow", path := s "path" "rowbyrow", layout := s "layout" "mem1",
+    cuts0 := cutsOf cat 0, cuts1 := cutsOf cat 1, tys1 := tysOf cat 1 }
+
+/-- cut a table into the batches the layout registers -/
+def batchesOf (layout : String) (cuts : List Nat) (t : Table) : List Table :=
+  if layout == "mem1" then [t] else
+  let rec go (cs : List Nat) (rest : Table) : List Table :=
+    match cs with
+    | [] => if rest.isEmpty then [] else [rest]
+    | n :: cs => rest.take n :: go cs (rest.drop n)
+  go cuts t
+
+/-! ### the subquery, taken apart -/
+
+def conjuncts : Expr → List Expr
+  | .bin .and a b => conjuncts a ++ conjuncts b
+  | e => [e]
+
+partial def hasOuter : Expr → Bool
+  | .outer _ _ => true
+  | .un _ e | .cast e _ => hasOuter e
+  | .bin _ a b | .nullif a b => hasOuter a || hasOuter b
+  | .inList e es _ => hasOuter e || es.any hasOuter
+  | .between a b c _ => hasOuter a || hasOuter b || hasOuter c
+  | .case_ es | .coalesce es | .fn _ es => es.any hasOuter
+  | .inSub e _ _ => hasOuter e
+  | _ => false
+
+def isCmp : BinOp → Bool
+  | .eq | .ne | .lt | .le | .gt | .ge => true
+  | _ => false
+
+structure SubInfo where
+  plan : Query                 -- the whole subquery
+  base : Query                 -- its FROM (scan of t1)
+  pred : Option Expr           -- its WHERE
+  corr : List CorrPred         -- correlation conjuncts `outer.col op inner.col`, orientation outer op inner
+  local_ : List Expr           -- the other conjuncts
+  otherCorr : Bool             -- a conjunct reads the outer row in some other shape
+  out : Expr                   -- the output expression over an inner row (non-aggregate subquery)
+  agg : Option AggCall         -- the aggregate call (global aggregate subquery)
+  correlated : Bool
+
+def subInfo (sub : Query) : Option SubInfo :=
+  let mk (base : Query) (pred : Option Expr) (out : Expr) (agg : Option AggCall) : SubInfo :=
+    let cs := match pred with | some p => conjuncts p | none => []
+    let classify (e : Expr) : Option CorrPred :=
+      match e with
+      | .bin op (.col j) (.outer 1 i) => if isCmp op then some { outerCol := i, innerCol := j, op := flipOp op } else none
+      | .bin op (.outer 1 i) (.col j) => if isCmp op then some { outerCol := i, innerCol := j, op := op } else none
+      | _ => none
+    let corr := cs.filterMap classify
+    let rest := cs.filter fun e => (classify e).isNone
+    { plan := sub, base := base, pred := pred, corr := corr, local_ := rest.filter (fun e => !hasOuter e),
+      otherCorr := rest.any hasOuter, out := out, agg := agg, correlated := cs.any hasOuter }
+  match sub with
+  | .project _ [e0] (.filter _ p q) => some (mk q (some p) e0 none)
+  | .project _ [e0] (.agg [] [a] (.filter _ p q)) => some (mk q (some p) e0 (some a))
+  | .project _ [e0] (.agg [] [a] q) => some (mk q none e0 (some a))
+  | .project _ [e0] q => some (mk q none e0 none)
+  | _ => none
+
+def cx0 : EvalCtx := { fo := fo, fn := fns, runSub := fun _ _ => .error (.unsupported "subquery") }
+
+def truthy : Except Err Val → Except Err Bool
+  | .ok (.bool b) => .ok b
+  | .ok .null => .ok false
+  | .ok _ => .error (.type "predicate is not boolean")
+  | .error e => .error e
+
+/-- inner rows passing the uncorrelated conjuncts of the subquery's WHERE -/
+def localRows (c : Case) (si : SubInfo) : Except Err Table := do
+  let rows ← Spec.run fo fns c.tables si.base [] []
+  rows.filterM fun r => si.local_.allM fun e => truthy (eval cx0 [r] e)
+
+/-! ### the statement, taken apart -/
+
+structure Stmt where
+  es : List Expr               -- SELECT list
+  subsP : List Query
+  pred : Option Expr           -- WHERE
+  subsF : List Query
+  sub : Query                  -- the one subquery
+  inWhere : Bool
+
+def stmtOf (q : Query) : Option Stmt :=
+  match q with
+  | .project subsP es (.filter subsF p (.scan 0)) =>
+    (match subsF, subsP with
+     | [s], [] => some { es := es, subsP := subsP, pred := some p, subsF := subsF, sub := s, inWhere := true }
+     | _, _ => none)
+  | .project [s] es (.scan 0) => some { es := es, subsP := [s], pred := none, subsF := [], sub := s, inWhere := false }
+  | _ => none
+
+/-! ### row-by-row evaluation with the engine's subquery evaluators -/
+
+/-- the subquery result for the outer row `l`, batch by batch of the inner table (non-aggregate subqueries keep the batch
+    structure of the scan; an aggregate returns one batch) -/
+def subBatches (m : Meta) (c : Case) (si : SubInfo) (l : Row) : Except Err (List Table) :=
+  match si.agg with
+  | some _ => do pure [← Spec.run fo fns c.tables si.plan [] [l]]
+  | none =>
+    match c.tables with
+    | t0 :: t1 :: rest =>
+      (batchesOf m.layout m.cuts1 t1).mapM fun b => Spec.run fo fns (t0 :: b :: rest) si.plan [] [l]
+    | _ => do pure [← Spec.run fo fns c.tables si.plan [] [l]]
+
+/-- ColumnNotFound: the correlated outer column was pruned from the operator's input (A.26) -/
+def pruned (dev : Dev) (m : Meta) (si : SubInfo) : Bool :=
+  dev.corrScalarInSelectNull && si.correlated && m.unq && m.narrow
+
+/-- `substitute_correlated_columns` replaces a NULL outer value by an untyped NULL literal; compared with a DATE column the
+    substituted plan fails to execute (an error the row-by-row paths then swallow) -/
+def nullDateKey (dev : Dev) (m : Meta) (si : SubInfo) (l : Row) : Bool :=
+  dev.corrErrorsSwallowed && si.corr.any fun p => (l.getD p.outerCol .null).isNull && m.tys1.getD p.innerCol "" == "date"
+
+/-- value of the subquery expression at outer row `l` (scalar subqueries: before `typedFromFirst`) -/
+def subValue (dev : Dev) (m : Meta) (c : Case) (si : SubInfo) (l : Row) : Expr → Except Err Val
+  | .exists_ _ neg =>
+    let r : Except Err Table := if pruned dev m si || nullDateKey dev m si l then .error (.bad "Column not found") else Spec.run fo fns c.tables si.plan [] [l]
+    if si.correlated then evalExistsCorr dev r neg
+    else match r with | .ok t => .ok (evalExists t neg) | .error e => .error e
+  | .inSub x _ neg => do
+    let xv ← eval cx0 [l] x
+    let t ← Spec.run fo fns c.tables si.plan [] [l]
+    evalInSubquery dev fo xv (t.map yOf) neg
+  | .scalarSub _ =>
+    let r : Except Err Val := if pruned dev m si || nullDateKey dev m si l then .error (.bad "Column not found") else do
+      let bs ← subBatches m c si l
+      evalScalarB dev bs
+    if si.correlated then
+      match r with
+      | .ok v => .ok v
+      | .error e => if dev.corrErrorsSwallowed then .ok .null else .error e
+    else r
+  | _ => .error (.unsupported "not a subquery expression")
+
+/-- evaluate `e` at row `l` with the subquery expression's value given -/
+partial def evalWith (sv : Val) (l : Row) : Expr → Except Err Val
+  | .exists_ _ _ | .inSub _ _ _ | .scalarSub _ => .ok sv
+  | .un op e => do unVal fo op (← evalWith sv l e)
+  | .bin op a b => do
+    let x ← evalWith sv l a
+    let y ← evalWith sv l b
+    binVal fo op x y
+  | e => eval cx0 [l] e
+
+partial def findSub : Expr → Option Expr
+  | e@(.exists_ _ _) | e@(.inSub _ _ _) | e@(.scalarSub _) => some e
+  | .un _ e => findSub e
+  | .bin _ a b => (findSub a).orElse fun _ => findSub b
+  | _ => none
+
+/-- the per-row values of the subquery expression over the outer table, batch by batch -/
+def subValues (dev : Dev) (m : Meta) (c : Case) (si : SubInfo) (se : Expr) (R : Table) : Except Err (List Val) := do
+  let bs := batchesOf m.layout m.cuts0 R
+  let parts ← bs.mapM fun b => do
+    let vs ← b.mapM fun l => subValue dev m c si l se
+    let isCorrScalar := si.correlated && (match se with | .scalarSub _ => true | _ => false)
+    pure (if isCorrScalar then typedFromFirst dev vs else vs)
+  pure parts.flatten
+
+/-! ### the decorrelated paths -/
+
+/-- inner rows with the subquery's output value in front (`yOf`), correlation predicates shifted accordingly -/
+def shifted (si : SubInfo) (S : Table) : Except Err (Table × List CorrPred) := do
+  let S' ← S.mapM fun r => do pure ((← eval cx0 [r] si.out) :: r)
+  pure (S', si.corr.map fun p => { p with innerCol := p.innerCol + 1 })
+
+/-- rows of the outer table the decorrelated join keeps -/
+def joinKeep (dev : Dev) (c : Case) (si : SubInfo) (se : Expr) (R : Table) : Except Err (Table) := do
+  let S ← localRows c si
+  match se with
+  | .exists_ _ neg => pure (existsRewrite (existsMatch dev fo si.corr) neg R S)
+  | .inSub x _ neg => do
+    let (S', ps) ← shifted si S
+    let xs ← R.mapM fun l => eval cx0 [l] x
+    -- `xv` by position: rows are looked up through their index column
+    let keyed := (List.range R.length).zip (R.zip xs)
+    let R' : Table := keyed.map fun (i, (l, _)) => .int i :: l
+    let xv : Row → Val := fun l' => match l' with
+      | .int i :: _ => (xs.getD i.toNat .null)
+      | _ => .null
+    let ps' := ps.map fun p => { p with outerCol := p.outerCol + 1 }
+    let mm := inCorrMatch dev fo [0] ps'
+    let kept := if neg then notInRewrite dev fo xv mm R' S' else inRewrite fo xv mm R' S'
+    pure (kept.map fun l' => l'.drop 1)
+  | _ => .error (.unsupported "not a join path")
+
+/-- the scalar-aggregate rewrite: per outer row the value the Left join provides -/
+def joinScalar (dev : Dev) (c : Case) (si : SubInfo) (R : Table) (Rf : Option Table) : Except Err (List Val) := do
+  let S ← localRows c si
+  match si.agg, si.corr with
+  | some a, [p] =>
+    let S := match Rf with
+      | some rf => reducedInput dev fo (fun l => l.getD p.outerCol .null) (fun r => r.getD p.innerCol .null) rf S
+      | none => S
+    let evs ← S.mapM fun r => match a.fn with
+      | .countStar => pure (Val.bool true)
+      | _ => eval cx0 [r] a.arg
+    let S' : Table := (S.zip evs).map fun (r, v) => v :: r
+    let out ← scalarLeftJoin dev fo a.fn a.distinct (fun l => l.getD p.outerCol .null) (fun r => r.getD (p.innerCol + 1) .null) yOf R S'
+    pure (out.map (·.2))
+  | _, _ => .error (.unsupported "scalar join path with other than one equality correlation")
+
+/-! ### the model of one statement -/
+
+def modelRun (dev : Dev) (m : Meta) (c : Case) : Except Err Table := do
+  let some st := stmtOf c.plan | .error (.unsupported "statement shape outside the C23 model")
+  let some si := subInfo st.sub | .error (.unsupported "subquery shape outside the C23 model")
+  let R ← Spec.run fo fns c.tables (.scan 0) [] []
+  match st.pred with
+  | some p =>
+    -- WHERE: the conjunct holding the subquery, the others
+    let cs := conjuncts p
+    let some sc := cs.find? (fun e => (findSub e).isSome) | .error (.unsupported "no subquery conjunct")
+    let others := cs.filter fun e => (findSub e).isNone
+    let some se := findSub sc | .error (.unsupported "no subquery")
+    let topLevel : Bool := match sc with
+      | .exists_ _ _ | .inSub _ _ _ => true
+      | .bin op a b => isCmp op && (match a, b with | .scalarSub _, _ => true | _, .scalarSub _ => true | _, _ => false)
+      | _ => false
+    let kept ← if m.path == "join" && topLevel then
+        (match se with
+         | .scalarSub _ => do
+           -- the outer side as the rule sees it: filtered by the other conjuncts (pushed into the scan beforehand)
+           let rf ← if others.isEmpty then pure none else do
+             pure (some (← R.filterM fun l => others.allM fun e => truthy (eval cx0 [l] e)))
+           let vs ← joinScalar dev c si R rf
+           (R.zip vs).filterMapM fun (l, v) => do
+             if ← truthy (evalWith v l sc) then pure (some l) else pure none
+         | _ => joinKeep dev c si se R)
+      else do
+        let vs ← subValues dev m c si se R
+        (R.zip vs).filterMapM fun (l, v) => do
+          if ← truthy (evalWith v l sc) then pure (some l) else pure none
+    let kept ← kept.filterM fun l => others.allM fun e => truthy (eval cx0 [l] e)
+    kept.mapM fun l => evalList cx0 [l] st.es
+  | none =>
+    let some se := st.es.findSome? findSub | .error (.unsupported "no subquery in the SELECT list")
+    let vs ← subValues dev m c si se R
+    (R.zip vs).mapM fun (l, v) => st.es.mapM fun e => evalWith v l e
+
+/-! ### attribution -/
+
+structure Sw where
+  id : String
+  set : Dev → Dev
+  applies : Meta → SubInfo → Bool
+
+def isJoin (m : Meta) : Bool := m.path == "join"
+
+def switches : List Sw :=
+  [ { id := "C23-F1", set := fun d => { d with notInPlainAnti := true }, applies := fun m _ => isJoin m && m.kind == "in" && m.neg },
+    { id := "C23-F2", set := fun d => { d with inSubquerySkipsNulls := true }, applies := fun m _ => !isJoin m && m.kind == "in" },
+    { id := "C23-F3", set := fun d => { d with corrScalarInSelectNull := true, corrErrorsSwallowed := true },
+      applies := fun m si => !isJoin m && si.correlated && m.unq && m.narrow },
+    { id := "C23-F4", set := fun d => { d with nonEqFilterFlipped := true }, applies := fun m si => isJoin m && m.kind == "exists" && si.corr.any (fun p => p.op != .eq) },
+    { id := "C23-F5", set := fun d => { d with inDropsNonEqCorr := true }, applies := fun m si => isJoin m && m.kind == "in" && si.corr.any (fun p => p.op != .eq) },
+    { id := "C23-F6", set := fun d => { d with inDropsProjectedCorr := true }, applies := fun m si => isJoin m && m.kind == "in" && !si.corr.isEmpty },
+    { id := "C23-F7", set := fun d => { d with scalarCountBug := true }, applies := fun m si => isJoin m && m.kind == "scalar_agg" && si.correlated },
+    { id := "C23-F12", set := fun d => { d with scalarReductionDup := true }, applies := fun m si => isJoin m && m.kind == "scalar_agg" && si.correlated },
+    { id := "C23-F8", set := fun d => { d with corrErrorsSwallowed := true }, applies := fun m si => !isJoin m && si.correlated && (m.kind == "scalar_row" || m.kind == "scalar_agg" || m.kind == "exists") },
+    { id := "C23-F9", set := fun d => { d with scalarFirstBatchOnly := true }, applies := fun m si => !isJoin m && m.kind == "scalar_row" && m.layout != "mem1" && si.agg.isNone },
+    { id := "C23-F10", set := fun d => { d with corrScalarFirstRowTyped := true }, applies := fun m si => !isJoin m && si.correlated && (m.kind == "scalar_row" || m.kind == "scalar_agg") } ]
+
+def subsets {α} : List α → List (List α)
+  | [] => [[]]
+  | x :: xs => let r := subsets xs; r ++ r.map (x :: ·)
+
+def switchSets (m : Meta) (si : SubInfo) : List (List Sw) :=
+  let sw := switches.filter fun s => s.applies m si
+  ((subsets sw).filter (fun s => !s.isEmpty && s.length ≤ 3)).mergeSort (fun a b => a.length ≤ b.length)
+
+def sameOutcome (o : Outcome) (mres : Except Err Table) : Bool :=
+  match o, mres with
+  | .ok out, .ok t => bagEq out (normTable t)
+  | .err _, .error (.card _) => true
+  | _, _ => false
+
+/-- C23-F11: a correlated IN subquery that is evaluated row by row (under OR, in the SELECT list, or with the decorrelation
+    rule off) fails "Column not found: <outer column>" — `evaluate_subquery_expr` has no correlated arm for IN. -/
+def sigCorrInColumnNotFound (m : Meta) (si : SubInfo) (o : Outcome) (msg : String) : Bool :=
+  match o with
+  | .err _ => m.kind == "in" && si.correlated && !isJoin m && (msg.splitOn "Column not found").length > 1
+  | _ => false
+
+def acceptableOn (c : Case) (out : Table) : Bool :=
+  match Spec.acceptable fo fns c.tables c.plan out with | .ok true => true | _ => false
+
+def attrC23 (m : Meta) (msg : String) : AttrFn := fun c o _ =>
+  match stmtOf c.plan with
+  | none => none
+  | some st =>
+  match subInfo st.sub with
+  | none => none
+  | some si =>
+    -- the model with all switches off must itself be a correct answer (or raise the reference's cardinality error)
+    let okOff : Bool := match modelRun {} m c, specRun c with
+      | .ok t, .ok _ => acceptableOn c (normTable t)
+      | .error (.card _), .error (.card _) => true
+      | _, _ => false
+    if !okOff then none else
+    if sigCorrInColumnNotFound m si o msg then some "C23-F11" else
+    match (switchSets m si).find? (fun s => sameOutcome o (modelRun (s.foldl (fun d sw => sw.set d) {}) m c)) with
+    | some (sw :: _) => some sw.id
+    | _ => none
+
 def handler : Driver.Handler := fun cj i => do
+  let msg := (i.getObjValAs? String "msg").toOption.getD ""
+  let m := metaOf cj
   let cj := cj.setObjVal! "strict_err" (Json.bool true)
-  handlerWith noAttr cj i
+  let c ← caseOfJson cj
+  let o ← outcomeOfJson i
+  let spec := specRun c
+  let mres := modelRun {} m c
+  let pathTag := s!"path:{m.path}"
+  match spec with
+  | .error (.card _) =>
+    -- the reference raises the scalar subquery's cardinality error: so must the engine
+    let k := match mres with | .error (.card _) => true | _ => false
+    let ofail : Option String := match o with
+      | .err _ => none
+      | .panic p => some s!"engine panicked: {p.take 120}"
+      | .ok out => some s!"a scalar subquery returns more than one row: the statement must fail, the engine returned {out.length} rows"
+    let attr := if ofail.isSome then attrC23 m msg c o spec else none
+    pure { model := specJson (mres.map normTable), k := k, oracle := ofail, nt := true,
+           tags := c.tags ++ [pathTag, "spec:card", match o with | .err _ => "impl:err:card" | .ok _ => "impl:rows" | .panic _ => "impl:panic"],
+           attr := attr }
+  | _ =>
+    -- an uncorrelated scalar subquery with more than one row may be reported although no outer row asks for it
+    let cardOnEmpty : Bool := match o, stmtOf c.plan with
+      | .err _, some st =>
+        (msg.splitOn "Scalar subquery returned").length > 1 &&
+          (match subInfo st.sub with
+           | some si => !si.correlated && (match Spec.run fo fns c.tables si.plan [] [] with | .ok t => t.length > 1 | .error _ => false)
+           | none => false)
+      | _, _ => false
+    if cardOnEmpty then
+      pure { model := specJson spec, k := true, oracle := none, nt := false, tags := c.tags ++ [pathTag, "impl:err:card_unasked"] }
+    else
+      let v ← handlerWith (attrC23 m msg) cj i
+      let k := match mres, o with
+        | .ok t, .ok out => bagEq out (normTable t)
+        | .error _, _ => true          -- Spec-level error (overflow …): the case is skipped by O as well
+        | .ok _, _ => false
+      pure { v with model := specJson (mres.map normTable), k := k, tags := v.tags ++ [pathTag],
+                    attr := if v.oracle.isSome || !k then v.attr else none }
 
 end Driver.C23
